@@ -7,26 +7,32 @@ VERIF_DIR="${VERIF_DIR:-/verif}"
 WITH_TESTS=0
 [ "${1:-}" = "--with-tests" ] && { WITH_TESTS=1; shift; }
 FILTER="${1:-}"
-if [ -n "$(git -C /repo status --porcelain)" ]; then echo "refusing: /repo not clean"; exit 2; fi
+# Work in a scratch worktree of /repo's HEAD (removed at the end); /repo itself is never touched.
+SCRATCH="${SIM_SCRATCH:-/tmp/simscratch-$$}"
+git -C /repo worktree add -q --detach "$SCRATCH" HEAD || { echo "cannot create scratch worktree"; exit 2; }
+cp /repo/Cargo.lock "$SCRATCH/Cargo.lock" 2>/dev/null
+export SIM_REPO="$SCRATCH"
+cleanup() { git -C /repo worktree remove --force "$SCRATCH" 2>/dev/null; rm -rf "/tmp/simshadow/$(printf %s "$SCRATCH" | tr -c 'A-Za-z0-9' _)"; }
+trap cleanup EXIT INT TERM
 mkdir -p "$VERIF_DIR/sim/target/sens"
 missed=0
 while IFS="$(printf '\t')" read -r name prop note; do
     case "$name" in *"$FILTER"*) ;; *) continue ;; esac
-    git -C /repo apply "$VERIF_DIR/mutants/$name.patch" || { echo "$name: patch does not apply"; missed=$((missed+1)); continue; }
+    git -C "$SCRATCH" apply "$VERIF_DIR/mutants/$name.patch" || { echo "$name: patch does not apply"; missed=$((missed+1)); continue; }
     tests="-"
     if [ "$WITH_TESTS" = 1 ]; then
-        if (cd /repo && CARGO_NET_OFFLINE=true cargo test --workspace --no-fail-fast --offline >"$VERIF_DIR/sim/target/sens/$name.tests" 2>&1); then tests="suite-green"; else tests="suite-RED"; fi
+        if (cd "$SCRATCH" && CARGO_NET_OFFLINE=true cargo test --workspace --no-fail-fast --offline >"$VERIF_DIR/sim/target/sens/$name.tests" 2>&1); then tests="suite-green"; else tests="suite-RED"; fi
     fi
     t0=$(date +%s)
     SIM_NO_EVIDENCE=1 "$VERIF_DIR/check" "$prop" quick >"$VERIF_DIR/sim/target/sens/$name.out" 2>&1
     rc=$?
     t1=$(date +%s)
-    git -C /repo checkout -- .
+    git -C "$SCRATCH" checkout -- .
     cls=$(grep -m1 '^violation class=' "$VERIF_DIR/sim/target/sens/$name.out" | cut -c1-150)
     if [ "$rc" = 1 ]; then verdict="CAUGHT"; else verdict="MISSED(rc=$rc)"; missed=$((missed+1)); fi
     printf '%-34s %-4s %-14s %-11s %3ss  %s\n' "$name" "$prop" "$verdict" "$tests" "$((t1-t0))" "$cls"
 done < "$VERIF_DIR/mutants/INDEX.tsv"
-git -C /repo checkout -- . 2>/dev/null
+git -C "$SCRATCH" checkout -- . 2>/dev/null
 rm -f "$VERIF_DIR"/replays/*.json
 echo "missed: $missed"
 [ "$missed" = 0 ]
